@@ -2,13 +2,20 @@ import IbModel.Proofs.CheckpointCodec
 import IbModel.Proofs.CheckpointNames
 import IbModel.Proofs.CheckpointStore
 import IbModel.Proofs.CheckpointUtf8
+import IbModel.Proofs.CheckpointSha
+import IbModel.Proofs.CheckpointTrunc
 import IbModel.Generated.Tables
 /-!
 # C12 — checkpoint store: faithful round trip, integrity, bounded retention, true latest
 
 Property theorems about `IB.Checkpoint` (model of `src/checkpoint.rs`, see `Model/Checkpoint.lean`).
 Helper lemmas live in `Proofs/Checkpoint*.lean`. The hash `H` (SHA-256 in the code) is a parameter
-everywhere; its collision-freeness appears only as an explicit hypothesis of the tamper theorems.
+everywhere. What the theorems need of it is stated pointwise and holds for the real hash:
+* the round trip needs "digests are UTF-8 text of at most 4 KiB" — PROVED for `Sha.sha256Hex` (the function the
+  driver runs, `Model/CheckpointSha.lean`) for every input, see `roundtrip_every_unicode_state_sha256`;
+* tamper rejection needs `NoCollisionAt H (metaString s') (metaString s)` — no collision on the TWO strings
+  involved (not global injectivity, which no hash with bounded output has); checked by kernel evaluation for
+  `Sha.sha256Hex` on concrete pairs in the non-vacuity section, where ONE `H` satisfies all of them at once.
 `IB.Generated.ckptDecodeLimit` is printed from the running code on every run, so the theorems that
 mention it are re-checked against the code's current constant.
 -/
@@ -88,6 +95,19 @@ theorem roundtrip_every_unicode_state (H : Bytes → Bytes)
   · exact ⟨hpid, hHl _, hem, hlnt⟩
   · rfl
 
+/-- **The same for the real hash, no hypothesis on it left**: `Sha.sha256Hex` (the SHA-256 the driver runs against the
+    `sha2` crate on every case) prints 64 ASCII hex digits for EVERY input (`Sha.sha256Hex_length`,
+    `Sha.sha256Hex_validUtf8`), so every record of the property's quantifier round-trips. -/
+theorem roundtrip_every_unicode_state_sha256
+    (mem : Nat) (hmem : IB.Generated.ckptDecodeLimit ≤ mem)
+    (pid em lnt : List Char) (idx ts pc tn : Nat) (pp : UInt8)
+    (hpid : (utf8Of pid).length ≤ 4096) (hem : (utf8Of em).length ≤ 4096) (hlnt : (utf8Of lnt).length ≤ 4096)
+    (hidx : idx ≤ u64Max) (hts : ts ≤ u64Max) (hpc : pc ≤ u64Max) (htn : tn ≤ u64Max) :
+    load Sha.sha256Hex (currentCfg mem) (encode (mkState Sha.sha256Hex pid em lnt idx ts pc tn pp)) =
+      .ok (mkState Sha.sha256Hex pid em lnt idx ts pc tn pp) :=
+  roundtrip_every_unicode_state Sha.sha256Hex Sha.sha256Hex_validUtf8
+    (fun x => by rw [Sha.sha256Hex_length]; decide) mem hmem pid em lnt idx ts pc tn pp hpid hem hlnt hidx hts hpc htn
+
 /-- Without a limit (`Legacy.cfg`) the round trip needs only that the strings fit in memory. -/
 theorem load_encode_nolimit (H : Bytes → Bytes) (mem : Nat) (s : State) (wf : s.WF)
     (hm : FitsMem (Legacy.cfg mem) s) (hck : s.checksum = H (metaString s)) :
@@ -123,6 +143,67 @@ theorem load_never_crashes (H : Bytes → Bytes) (mem : Nat) (hmem : IB.Generate
 theorem load_allocates_at_most_limit (H : Bytes → Bytes) (bytes : Bytes) :
     NoCrash (load H (currentCfg IB.Generated.ckptDecodeLimit) bytes) :=
   load_never_crashes H _ (Nat.le_refl _) bytes
+
+/-- **All buffers together**: `NoCrash` above bounds each single request. For every ACCEPTED file the decoder's
+    running total — 8 per integer / length prefix, 1 for the `u8` and EVERY byte of all four string buffers
+    together — passed the limit check, i.e. `65 + Σ string lengths ≤ limit`.
+    (`…_partial`: for a REJECTED file the buffers requested before the rejection are not summed by the model; each
+    of them is covered by `load_never_crashes`, and each was claimed against the same running total first.) -/
+theorem accepted_total_allocation_bounded_partial (H : Bytes → Bytes) (cfg : Cfg) (bytes : Bytes) (s' : State)
+    (hl : load H cfg bytes = .ok s') : overLimit cfg (claims s') = false := by
+  unfold load at hl
+  obtain ⟨r, hd, _⟩ := andThen_eq_ok hl
+  have := decodeState_ok_claims (rest := r.2) (s := r.1) hd
+  split at * <;> simp_all
+
+/-- the same for the running code, spelled out -/
+theorem accepted_total_allocation_bounded_current_partial (H : Bytes → Bytes) (mem : Nat) (bytes : Bytes)
+    (s' : State) (hl : load H (currentCfg mem) bytes = .ok s') :
+    65 + s'.pipelineId.length + s'.checksum.length + s'.execMode.length + s'.metadata.lastNodeType.length ≤
+      IB.Generated.ckptDecodeLimit := by
+  have := accepted_total_allocation_bounded_partial H (currentCfg mem) bytes s' hl
+  unfold overLimit currentCfg claims at this
+  simp only [decide_eq_false_iff_not] at this
+  omega
+
+/-- **Every truncation of a saved file is an error** ("unexpected end"), for every record, every length `n` shorter
+    than the file — the property's "∀ truncations of the encoded file", literally. -/
+theorem truncated_file_rejected (H : Bytes → Bytes) (cfg : Cfg) (s : State) (wf : s.WF) (hm : FitsMem cfg s)
+    (hc : overLimit cfg (claims s) = false) (n : Nat) (hn : n < (encode s).length) :
+    load H cfg ((encode s).take n) = .error .eof := by
+  have hd := decode_encode cfg s wf hm hc []
+  rw [List.append_nil] at hd
+  exact load_error_of_decode (decodeState_strict_prefix hd n hn)
+
+/-- … by the code as configured today, for the property's records (strings of at most 4 KiB) -/
+theorem truncated_file_rejected_current (H : Bytes → Bytes) (mem : Nat) (hmem : IB.Generated.ckptDecodeLimit ≤ mem)
+    (s : State) (wf : s.WF) (h4 : Within4K s) (n : Nat) (hn : n < (encode s).length) :
+    load H (currentCfg mem) ((encode s).take n) = .error .eof := by
+  obtain ⟨h1, h2, h3, h4⟩ := h4
+  have hlim : 65 + 4 * 4096 ≤ IB.Generated.ckptDecodeLimit := by decide
+  apply truncated_file_rejected H (currentCfg mem) s wf
+  · unfold FitsMem currentCfg; simp only; omega
+  · unfold overLimit currentCfg claims; simp only [decide_eq_false_iff_not]; omega
+  · exact hn
+
+/-- **Appended bytes never matter, for ANY file**: whatever `load_checkpoint` answers on `bytes` — acceptance, or
+    a rejection other than "unexpected end" — it answers on `bytes ++ tail` (generalises `load_ignores_trailing`
+    from pristine encodings to arbitrary content). -/
+theorem load_append_stable (H : Bytes → Bytes) (cfg : Cfg) (bytes tail : Bytes) :
+    (∀ s', load H cfg bytes = .ok s' → load H cfg (bytes ++ tail) = .ok s') ∧
+    (∀ e, load H cfg bytes = .error e → e ≠ .eof → load H cfg (bytes ++ tail) = .error e) := by
+  obtain ⟨h1, h2⟩ := decodeState_ext cfg bytes tail
+  unfold load
+  cases hd : decodeState cfg bytes with
+  | error e =>
+    refine ⟨fun s' h => (by simp at h), fun e' h hne => ?_⟩
+    simp only [andThen_error] at h
+    injection h with h; subst h
+    rw [h2 e hd hne]; rfl
+  | ok r =>
+    obtain ⟨s0, r0⟩ := r
+    rw [h1 s0 r0 hd]
+    exact ⟨fun s' h => h, fun e h _ => h⟩
 
 /-- NEGATION for the pinned commit (DESIGN §8 #8): nine bytes — a length prefix of `2^63` — make the
     unlimited decoder panic with "capacity overflow", whatever the hash and however much memory there is. -/
@@ -185,30 +266,46 @@ theorem metaString_determines_protected {s t : State} :
     metaString s = metaString t ↔ protectedFields s = protectedFields t :=
   ⟨metaString_injective, metaString_of_protectedFields⟩
 
+/-- `H` has no collision on the two strings `a`, `b`. This is all the tamper theorems need — at the checksum
+    strings of the altered and the genuine record. (It follows from global injectivity, `noCollisionAt_of_injective`,
+    but unlike that it is satisfiable by a hash with bounded output: `noCollisionAt_of_ne`.) -/
+def NoCollisionAt (H : Bytes → Bytes) (a b : Bytes) : Prop := H a = H b → a = b
+
+theorem noCollisionAt_of_injective {H : Bytes → Bytes} (hH : ∀ a b, H a = H b → a = b) (a b : Bytes) :
+    NoCollisionAt H a b := hH a b
+
+theorem noCollisionAt_of_ne {H : Bytes → Bytes} {a b : Bytes} (h : H a ≠ H b) : NoCollisionAt H a b :=
+  fun e => absurd e h
+
+theorem noCollisionAt_self (H : Bytes → Bytes) (a : Bytes) : NoCollisionAt H a a := fun _ => rfl
+
 /-- **Tamper rejection (protected fields)**: let `s` be a record whose checksum is genuine. ANY file content that
     decodes to a record carrying `s`'s checksum but different protected fields (pipeline id, progress index,
-    timestamp, partition count) is rejected with "checksum mismatch" — provided `H` has no collision.
-    Covers bit flips, overwrites and re-encodings alike: the hypothesis is about what the bytes decode to. -/
-theorem tamper_rejected (H : Bytes → Bytes) (hH : ∀ a b, H a = H b → a = b) (cfg : Cfg)
+    timestamp, partition count) is rejected with "checksum mismatch" — provided `H` does not collide on the two
+    checksum strings involved. Covers bit flips, overwrites and re-encodings alike: the hypothesis is about what
+    the bytes decode to. -/
+theorem tamper_rejected (H : Bytes → Bytes) (cfg : Cfg)
     (s s' : State) (bytes rest : Bytes) (hs : s.checksum = H (metaString s))
     (hd : decodeState cfg bytes = .ok (s', rest)) (hck : s'.checksum = s.checksum)
-    (hp : protectedFields s' ≠ protectedFields s) :
+    (hp : protectedFields s' ≠ protectedFields s)
+    (hH : NoCollisionAt H (metaString s') (metaString s)) :
     load H cfg bytes = .error .checksum := by
   have hne : H (metaString s') ≠ s'.checksum := by
     rw [hck, hs]
     intro e
-    exact hp (metaString_injective (hH _ _ e))
+    exact hp (metaString_injective (hH e))
   simp [load, hd, hne]
 
 /-- the special case of the property text: re-encode the record with an altered protected field, keep the checksum -/
-theorem tamper_rejected_reencoded (H : Bytes → Bytes) (hH : ∀ a b, H a = H b → a = b) (cfg : Cfg)
+theorem tamper_rejected_reencoded (H : Bytes → Bytes) (cfg : Cfg)
     (s s' : State) (hs : s.checksum = H (metaString s)) (wf : s'.WF) (hm : FitsMem cfg s')
     (hc : overLimit cfg (claims s') = false) (hck : s'.checksum = s.checksum)
-    (hp : protectedFields s' ≠ protectedFields s) :
+    (hp : protectedFields s' ≠ protectedFields s)
+    (hH : NoCollisionAt H (metaString s') (metaString s)) :
     load H cfg (encode s') = .error .checksum := by
   have hd := decode_encode cfg s' wf hm hc []
   rw [List.append_nil] at hd
-  exact tamper_rejected H hH cfg s s' _ [] hs hd hck hp
+  exact tamper_rejected H cfg s s' _ [] hs hd hck hp hH
 
 /-- **Tamper rejection (checksum)**: a file that decodes to the same protected fields but a different checksum is
     rejected — for every hash function, no assumption. -/
@@ -220,12 +317,10 @@ theorem checksum_tamper_rejected (H : Bytes → Bytes) (cfg : Cfg) (s s' : State
     rw [metaString_of_protectedFields hp, ← hs]; exact fun e => hck e.symm
   simp [load, hd, hne]
 
-/-- **Whatever is accepted is intact** (the contrapositive the harness oracle evaluates on the real code): if a file
-    derived from a genuine record `s` is accepted and still carries `s`'s checksum, its protected fields are `s`'s. -/
-theorem accepted_is_intact (H : Bytes → Bytes) (hH : ∀ a b, H a = H b → a = b) (cfg : Cfg)
-    (s s' : State) (bytes : Bytes) (hs : s.checksum = H (metaString s))
-    (hl : load H cfg bytes = .ok s') (hck : s'.checksum = s.checksum) :
-    protectedFields s' = protectedFields s := by
+/-- what `load` returns on acceptance is what the decoder produced, and its checksum is the hash of its own
+    checksum string (the only way through `load_checkpoint`'s comparison) -/
+theorem load_ok_inv {H : Bytes → Bytes} {cfg : Cfg} {bytes : Bytes} {s' : State} (hl : load H cfg bytes = .ok s') :
+    (∃ rest, decodeState cfg bytes = .ok (s', rest)) ∧ s'.checksum = H (metaString s') := by
   unfold load at hl
   cases hd : decodeState cfg bytes with
   | error e => simp [hd] at hl
@@ -236,23 +331,111 @@ theorem accepted_is_intact (H : Bytes → Bytes) (hH : ∀ a b, H a = H b → a 
     · rename_i hne
       injection hl with hl
       subst hl
-      have : H (metaString r.1) = r.1.checksum := by simpa using hne
-      exact metaString_injective (hH _ _ (by rw [this, hck, hs]))
+      exact ⟨⟨r.2, rfl⟩, (by simpa using hne : H (metaString r.1) = r.1.checksum).symm⟩
+
+/-- **Whatever is accepted is intact** (the contrapositive the harness oracle evaluates on the real code): if a file
+    derived from a genuine record `s` is accepted and still carries `s`'s checksum, its protected fields are `s`'s. -/
+theorem accepted_is_intact (H : Bytes → Bytes) (cfg : Cfg)
+    (s s' : State) (bytes : Bytes) (hs : s.checksum = H (metaString s))
+    (hl : load H cfg bytes = .ok s') (hck : s'.checksum = s.checksum)
+    (hH : NoCollisionAt H (metaString s') (metaString s)) :
+    protectedFields s' = protectedFields s := by
+  have h' := (load_ok_inv hl).2
+  exact metaString_injective (hH (by rw [← h', hck, hs]))
+
+/-! ### Bytes level: ANY file content, however it was obtained from the genuine file
+
+The four theorems above speak about the record a file decodes to. The statements below quantify over the file's
+BYTES: nothing is assumed about `bytes` (a bit flip in a length prefix that shifts every later field, an
+overwrite, a truncation, an insertion, several of them, or unrelated bytes). -/
+
+/-- **No hypothesis on `H` at all**: if `load_checkpoint` accepts ANY bytes as `s'` then
+    (1) `s'` is intact with respect to its own checksum,
+    (2) if `s'` has the protected fields of the genuine record `s` it has `s`'s checksum too, and
+    (3) if its protected fields differ from `s`'s then its checksum differs from `s`'s — unless `H` collides on
+        exactly the two checksum strings `metaString s'`, `metaString s` (a collision is exhibited). -/
+theorem accepted_bytes_consistent (H : Bytes → Bytes) (cfg : Cfg) (s s' : State) (bytes : Bytes)
+    (hs : s.checksum = H (metaString s)) (hl : load H cfg bytes = .ok s') :
+    s'.checksum = H (metaString s') ∧
+    (protectedFields s' = protectedFields s → s'.checksum = s.checksum) ∧
+    (protectedFields s' ≠ protectedFields s →
+      s'.checksum ≠ s.checksum ∨ (H (metaString s') = H (metaString s) ∧ metaString s' ≠ metaString s)) := by
+  have h' := (load_ok_inv hl).2
+  refine ⟨h', ?_, ?_⟩
+  · intro hp; rw [h', hs, metaString_of_protectedFields hp]
+  · intro hp
+    by_cases hck : s'.checksum = s.checksum
+    · right
+      exact ⟨by rw [← h', hck, hs], fun e => hp (metaString_injective e)⟩
+    · exact Or.inl hck
+
+/-- **Bytes-level integrity**: with no collision on the two strings involved, whatever `load_checkpoint` accepts
+    from ANY bytes either agrees with the genuine record `s` on ALL protected fields AND the checksum, or differs
+    from it in BOTH (a consistently re-computed record, i.e. a different genuine checkpoint — never `s` with one
+    side altered). -/
+theorem accepted_bytes_agree_or_both_differ (H : Bytes → Bytes) (cfg : Cfg) (s s' : State) (bytes : Bytes)
+    (hs : s.checksum = H (metaString s)) (hl : load H cfg bytes = .ok s')
+    (hH : NoCollisionAt H (metaString s') (metaString s)) :
+    (protectedFields s' = protectedFields s ∧ s'.checksum = s.checksum) ∨
+    (protectedFields s' ≠ protectedFields s ∧ s'.checksum ≠ s.checksum) := by
+  obtain ⟨_, h2, h3⟩ := accepted_bytes_consistent H cfg s s' bytes hs hl
+  by_cases hp : protectedFields s' = protectedFields s
+  · exact Or.inl ⟨hp, h2 hp⟩
+  · rcases h3 hp with h | ⟨he, hne⟩
+    · exact Or.inr ⟨hp, h⟩
+    · exact absurd (hH he) hne
+
+/-- the same as a rejection statement: bytes that decode to a record in which EXACTLY ONE of {protected fields,
+    checksum} differs from the genuine record are rejected with "checksum mismatch" -/
+theorem altered_one_side_rejected (H : Bytes → Bytes) (cfg : Cfg) (s s' : State) (bytes rest : Bytes)
+    (hs : s.checksum = H (metaString s)) (hd : decodeState cfg bytes = .ok (s', rest))
+    (hH : NoCollisionAt H (metaString s') (metaString s))
+    (hx : (protectedFields s' ≠ protectedFields s ∧ s'.checksum = s.checksum) ∨
+          (protectedFields s' = protectedFields s ∧ s'.checksum ≠ s.checksum)) :
+    load H cfg bytes = .error .checksum := by
+  rcases hx with ⟨hp, hck⟩ | ⟨hp, hck⟩
+  · exact tamper_rejected H cfg s s' bytes rest hs hd hck hp hH
+  · exact checksum_tamper_rejected H cfg s s' bytes rest hs hd hp hck
+
+/-- the faults of the property's quantifier, as operations on the file's bytes (positions out of range: no-op) -/
+inductive Fault
+  | flip (pos : Nat) (bit : Nat)        -- single-bit flip of byte `pos`
+  | overwrite (pos : Nat) (v : UInt8)    -- byte overwrite
+  | truncate (len : Nat)                 -- keep the first `len` bytes
+  | insert (pos : Nat) (v : UInt8)
+  | delete (pos : Nat)
+  | append (tail : Bytes)
+
+def applyFault (b : Bytes) : Fault → Bytes
+  | .flip pos bit => b.modify pos (fun x => x ^^^ ((1 : UInt8) <<< UInt8.ofNat (bit % 8)))
+  | .overwrite pos v => b.modify pos (fun _ => v)
+  | .truncate len => b.take len
+  | .insert pos v => b.take pos ++ v :: b.drop pos
+  | .delete pos => b.eraseIdx pos
+  | .append tail => b ++ tail
+
+/-- a fault SEQUENCE applied left to right -/
+def applyFaults (b : Bytes) (fs : List Fault) : Bytes := fs.foldl applyFault b
+
+/-- **For all fault sequences on the encoded file** (single-bit flips, overwrites, truncations, insertions,
+    deletions, appended bytes, any number of them in any order): the running code does not crash, requests no buffer
+    beyond the decode limit, and — if it accepts the damaged file at all — returns a record that is intact with
+    respect to its own checksum and agrees with the saved record on all protected fields and the checksum or
+    differs from it in both. -/
+theorem faulted_file (H : Bytes → Bytes) (mem : Nat) (hmem : IB.Generated.ckptDecodeLimit ≤ mem)
+    (s : State) (hs : s.checksum = H (metaString s)) (faults : List Fault) :
+    NoCrash (load H (currentCfg mem) (applyFaults (encode s) faults)) ∧
+    ∀ s', load H (currentCfg mem) (applyFaults (encode s) faults) = .ok s' →
+      s'.checksum = H (metaString s') ∧
+      (NoCollisionAt H (metaString s') (metaString s) →
+        (protectedFields s' = protectedFields s ∧ s'.checksum = s.checksum) ∨
+        (protectedFields s' ≠ protectedFields s ∧ s'.checksum ≠ s.checksum)) :=
+  ⟨load_never_crashes H mem hmem _, fun s' hl =>
+    ⟨(load_ok_inv hl).2, accepted_bytes_agree_or_both_differ H _ s s' _ hs hl⟩⟩
 
 /-- every accepted record carries the hash of its own checksum string -/
 theorem accepted_checksum_matches (H : Bytes → Bytes) (cfg : Cfg) (bytes : Bytes) (s' : State)
-    (hl : load H cfg bytes = .ok s') : s'.checksum = H (metaString s') := by
-  unfold load at hl
-  cases hd : decodeState cfg bytes with
-  | error e => simp [hd] at hl
-  | ok r =>
-    simp only [hd, andThen_ok] at hl
-    split at hl
-    · cases hl
-    · rename_i hne
-      injection hl with hl
-      subst hl
-      exact (by simpa using hne : H (metaString r.1) = r.1.checksum).symm
+    (hl : load H cfg bytes = .ok s') : s'.checksum = H (metaString s') := (load_ok_inv hl).2
 
 /-! ## 4. File names: whose checkpoint is it -/
 
@@ -522,6 +705,48 @@ theorem legacy_latest_returns_garbage :
     rfl
   · exact latest_none_of_no_own pid_q _ (by decide)
 
+/-- `"checkpoint_p_5.bin"`, `"checkpoint_p_9.bin"` -/
+def n_p5 : Name := [99, 104, 101, 99, 107, 112, 111, 105, 110, 116, 95, 112, 95, 53, 46, 98, 105, 110]
+def n_p9 : Name := [99, 104, 101, 99, 107, 112, 111, 105, 110, 116, 95, 112, 95, 57, 46, 98, 105, 110]
+
+/-- NEGATION (before the `is_file` fix; reproduced on the real code, `CKPT-SAVE max=1 … ts=5` with a sub-directory
+    `checkpoint_p_9.bin`): the directory is counted as a checkpoint of `p` with stamp 9, so with `max_checkpoints = 1`
+    the clean-up that follows the save of stamp 5 deletes the ONLY checkpoint — the file just written — and
+    `find_latest_checkpoint` answers with the directory. The current code (directories are invisible to the scans,
+    i.e. the model file system without them) keeps the file and returns it. -/
+theorem legacy_directory_counted_as_checkpoint :
+    Legacy.cleanupWithDirs (some 1) pid_p [n_p9] [(n_p5, ([] : Bytes))] = [] ∧
+    Legacy.latestWithDirs pid_p [n_p9] [(n_p5, ([] : Bytes))] = some n_p9 ∧
+    cleanup (some 1) pid_p [(n_p5, ([] : Bytes))] = [(n_p5, ([] : Bytes))] ∧
+    latest true pid_p [(n_p5, ([] : Bytes))] = some n_p5 := by
+  have hs : ([n_p5, n_p9].mergeSort (fun a b => decide (sortKey (pfx pid_p) a ≤ sortKey (pfx pid_p) b)))
+      = [n_p5, n_p9] := by
+    apply List.mergeSort_of_pairwise
+    decide
+  have hf : (names [(n_p5, ([] : Bytes))] ++ [n_p9]).filter (isOwn pid_p) = [n_p5, n_p9] := by decide
+  have hf1 : (names [(n_p5, ([] : Bytes))]).filter (isOwn pid_p) = [n_p5] := by decide
+  refine ⟨?_, ?_, ?_, ?_⟩
+  · have hd : doomed (isOwn pid_p) (sortKey (pfx pid_p)) 1 (names [(n_p5, ([] : Bytes))] ++ [n_p9]) = [n_p5] := by
+      unfold doomed
+      simp only [hf, hs]
+      decide
+    unfold Legacy.cleanupWithDirs
+    simp only [hd]
+    decide
+  · unfold Legacy.latestWithDirs
+    simp only [hf, hs]
+    rfl
+  · have hd : doomed (isOwn pid_p) (sortKey (pfx pid_p)) 1 (names [(n_p5, ([] : Bytes))]) = [] := by
+      unfold doomed
+      simp only [hf1]
+      decide
+    unfold cleanup cleanupWith
+    simp only [hd]
+    simp
+  · unfold latest latestWith
+    simp only [hf1, List.mergeSort_singleton]
+    rfl
+
 end Witnesses
 
 /-! ## Non-vacuity: the hypotheses of the conditional theorems are satisfiable by real inputs -/
@@ -543,11 +768,72 @@ example : exState.WF := by
 
 example : Within4K exState := by unfold Within4K; decide
 
-/-- a hash for which `exState`'s checksum is genuine (witness only; any function will do for `load_encode`) -/
-example : ∃ H : Bytes → Bytes, exState.checksum = H (metaString exState) := ⟨fun _ => exState.checksum, rfl⟩
+theorem metaString_exState : metaString exState = [112, 58, 51, 58, 55, 58, 50] := by
+  simp [metaString, exState, decDigits, digit, colon]
 
-/-- an injective "hash" exists (the identity), so the tamper theorems are not vacuous -/
-example : ∃ H : Bytes → Bytes, ∀ a b, H a = H b → a = b := ⟨id, fun _ _ h => h⟩
+/-- `exState`'s checksum is genuine for the real hash: `sha256("p:3:7:2")`, by kernel evaluation of `Sha.sha256Hex` -/
+theorem exState_genuine : exState.checksum = Sha.sha256Hex (metaString exState) := by
+  rw [metaString_exState]; decide +kernel
+
+/-- the tampered record: timestamp 7 ↦ 8, checksum kept -/
+def exTampered : State := { exState with timestamp := 8 }
+
+theorem metaString_exTampered : metaString exTampered = [112, 58, 51, 58, 56, 58, 50] := by
+  simp [metaString, exTampered, exState, decDigits, digit, colon]
+
+/-- the real hash does not collide on the two checksum strings of the example (kernel evaluation of both digests) -/
+theorem sha256_noCollision_example :
+    NoCollisionAt Sha.sha256Hex (metaString exTampered) (metaString exState) := by
+  rw [metaString_exState, metaString_exTampered]
+  exact noCollisionAt_of_ne (by decide +kernel)
+
+/-- **ONE hash satisfies the hypotheses of the round-trip family and of the tamper family simultaneously** — and it
+    is the real one: UTF-8 digests (∀ inputs), at most 4 KiB (∀ inputs), `exState`'s checksum genuine, no collision at
+    the pair (`exTampered`, `exState`), whose protected fields differ while the checksum is kept. -/
+theorem one_hash_satisfies_all_hypotheses :
+    ∃ H : Bytes → Bytes,
+      (∀ x, validUtf8 (H x) = true) ∧ (∀ x, (H x).length ≤ 4096) ∧
+      exState.checksum = H (metaString exState) ∧
+      NoCollisionAt H (metaString exTampered) (metaString exState) ∧
+      protectedFields exTampered ≠ protectedFields exState ∧ exTampered.checksum = exState.checksum :=
+  ⟨Sha.sha256Hex, Sha.sha256Hex_validUtf8, fun x => by rw [Sha.sha256Hex_length]; decide, exState_genuine,
+    sha256_noCollision_example, by decide, rfl⟩
+
+example : exTampered.WF := by constructor <;> decide
+
+/-- the conditional theorems applied to the example with the real hash: the genuine file loads, the file with the
+    timestamp altered is rejected with "checksum mismatch" by the code as configured today -/
+example (mem : Nat) (hmem : IB.Generated.ckptDecodeLimit ≤ mem) :
+    load Sha.sha256Hex (currentCfg mem) (encode exState) = .ok exState ∧
+    load Sha.sha256Hex (currentCfg mem) (encode exTampered) = .error .checksum := by
+  have hlim : 1000 ≤ IB.Generated.ckptDecodeLimit := by decide
+  refine ⟨load_encode_current _ mem hmem exState (by constructor <;> decide) (by unfold Within4K; decide)
+      exState_genuine, ?_⟩
+  refine tamper_rejected_reencoded _ _ exState exTampered exState_genuine (by constructor <;> decide) ?_ ?_ rfl
+    (by decide) sha256_noCollision_example
+  · have e1 : exTampered.pipelineId.length = 1 := rfl
+    have e2 : exTampered.checksum.length = 64 := rfl
+    have e3 : exTampered.execMode.length = 3 := rfl
+    have e4 : exTampered.metadata.lastNodeType.length = 1 := rfl
+    unfold FitsMem currentCfg; simp only [e1, e2, e3, e4]; omega
+  · have e : claims exTampered = 134 := rfl
+    unfold overLimit currentCfg; simp only [e, decide_eq_false_iff_not]; omega
+
+/-- every one of the 78 truncations of the example file is "unexpected end" for the code as configured today
+    (instance of `truncated_file_rejected_current`; its hypotheses hold for `exState`) -/
+example (mem : Nat) (hmem : IB.Generated.ckptDecodeLimit ≤ mem) (n : Nat) (hn : n < 78) :
+    load Sha.sha256Hex (currentCfg mem) ((encode exState).take n) = .error .eof :=
+  truncated_file_rejected_current _ mem hmem exState (by constructor <;> decide) (by unfold Within4K; decide) n
+    (by rw [show (encode exState).length = 78 by decide]; exact hn)
+
+/-- global injectivity (satisfiable only by unbounded-output functions such as `id`) implies the pointwise hypothesis,
+    so the previous formulation of the tamper theorems is an instance of the current one -/
+example : ∃ H : Bytes → Bytes, ∀ a b, NoCollisionAt H a b := ⟨id, fun _ _ h => h⟩
+
+/-- a fault sequence on the example file: flip bit 0 of byte 3 (the timestamp varint `07` ↦ `06`), then truncate to
+    70 bytes, then overwrite byte 0 — `applyFaults` computes -/
+example : (applyFaults (encode exState) [.flip 3 0, .truncate 70, .overwrite 0 255]).take 5 = [255, 112, 3, 6, 2] := by
+  decide
 
 /-- the model encoder on the example is the 78-byte file the real `save_checkpoint` writes (cf. `CKPT-ENC`) -/
 example : (encode exState).length = 78 := by decide
